@@ -73,7 +73,8 @@ OksPairClause(gt, pr, opt, area, o, ks) ==
        ELSE IF opt.scale < 0 /\ area # BBoxArea16(gt) THEN "instance_area"
        ELSE IF ~InRange(o.cls) THEN "oks_out_of_range"
        ELSE LET A == AreaOf(opt, gt)
-                per == Tup([n \in 1..Len(gt) |-> IF n \in V THEN KsClause(gt[n], pr[n], opt, A, ks[n]) ELSE "ok"])
+                \* opt.sn: the stddev of each keypoint (a per-keypoint array may hold different values; a scalar is sn[n] = s)
+                per == Tup([n \in 1..Len(gt) |-> IF n \in V THEN KsClause(gt[n], pr[n], [opt EXCEPT !.s = opt.sn[n]], A, ks[n]) ELSE "ok"])
             IN IF FirstBad(per) # "ok" THEN FirstBad(per)
                ELSE IF Abs(o.q * nv - SeqSum([n \in 1..Len(gt) |-> IF n \in V THEN ks[n].q ELSE 0])) > nv + 1
                     THEN "oks_not_mean_over_visible_gt_nodes"
